@@ -68,3 +68,13 @@ Theorem C04_debug_bounds_default : forall cc g id tr,
      end).
 Proof. exact debug_bounds_default. Qed.
 Print Assumptions C04_debug_bounds_default.
+
+(** `contains_generics` (which decides whether an inferred bound is emitted at all) is exactly "some type parameter
+    occurs in the type", with `occurs` specified independently ([Mentions.mentions]: a path that is the parameter,
+    the first segment `T::Assoc`, a qualified self type, any type argument / binding of any segment, Fn(..) sugar,
+    references, arrays, tuples, fn pointers, trait-object bounds) - for types of unbounded nesting *)
+From Verif Require C04.Mentions.
+Theorem C04_contains_generics_spec : forall ps t,
+  contains_generics ps t = true <-> exists p, In p ps /\ Mentions.mentions p t.
+Proof. exact Mentions.contains_generics_spec. Qed.
+Print Assumptions C04_contains_generics_spec.
